@@ -352,6 +352,9 @@ def run(ctx):
                                 loops = [x for x in h.nodes if x.get("k") == "for" and "c" in x]
                                 b4 = any((codec.linear(core(x.child("c")).child("r")) or {}).get(1) == 4 for x in loops if core(x.child("c")) is not None and core(x.child("c")).get("k") == "bin")
                                 okm = ("key.data() + 1" in txt or "key.data()[1" in txt) and ("8 * i" in txt or "i * 8" in txt) and b4
+                                hm = h.calls("memcpy")
+                                if len(hm) == 1 and "key.data()[1]" in expr_str(arg_nodes(hm[0])[1]).replace("cast<unsigned long>", "") and core(arg_nodes(hm[0])[2]).get("v") == 4:
+                                    okm = True       # the same memcpy, moved into the helper
         ret = [n for n in f.nodes if n.get("k") == "return"][0]
         cons = [x for x in ret.walk() if x.get("k") == "construct" and len(x.get("args", [])) == 2]
         off = ln = None
@@ -392,6 +395,44 @@ def run(ctx):
             okk = off == 1 and ln == (("1", -1), ("key.size()", 1))
             desc = "offset %s length %s" % (off, ln)
         r.check(okk, "BuildKey::%s|offsets" % nm, "", "simple key name read with %s" % desc, f)
+
+    rs = rep.rule("R-STRINGLIST-SIZE", "StringList's packed length is the sum over the given strings of (length + 1) and nothing else: in the list constructors `size` is "
+                                       "written only by `size += s.size() + 1` inside the loop over all strings (or set to value.size() + 1 for one string) — the "
+                                       "length is what encode() writes and getValues() walks, so any other adjustment turns [] into [\"\"] or drops a string", floor=2)
+    n_ct = 0
+    for f in prog.functions.values():
+        if f.is_lambda or not (f.cls or "").endswith("basic::StringList") or not f.raw.get("ctor") or not f.params:
+            continue
+        pt = f.db_types[f.params[0]["t"]]
+        if "StringList" in pt:
+            continue                                    # move constructor
+        n_ct += 1
+        writes = [n for n in f.nodes if (n.get("k") == "bin" and n.get("op", "").endswith("=") and n["op"] not in ("==", "!=", "<=", ">=") and
+                                         expr_str(core(n.child("l"))).replace("this->", "") == "size") or
+                  (n.get("k") == "un" and ("++" in n.get("op", "") or "--" in n.get("op", "")) and expr_str(core(n.child("e"))).replace("this->", "") == "size")]
+        site = "StringList(%s)|size" % pt.replace("const ", "")[:40]
+        bad = None
+        if "ArrayRef" in pt:
+            loops = dict((lp["id"], en) for lp, en in E_loops(f, f.params[0]["n"]))
+            for w in writes:
+                lp = next((a for a in f.ancestors(w) if a.get("k") in ("forrange", "for", "while")), None)
+                lin = codec.linear(w.child("r")) if w.get("k") == "bin" else None
+                en = loops.get(lp["id"]) if lp is not None else None
+                ok = w.get("k") == "bin" and w["op"] == "+=" and lp is not None and en is not None and lin is not None and \
+                    lin.get(1) == 1 and {k_: v_ for k_, v_ in lin.items() if k_ != 1} == {"%s.size()" % en: 1}
+                if not ok:
+                    bad = w
+            if not writes:
+                bad = f.nodes[0]
+        else:
+            for w in writes:
+                lin = codec.linear(w.child("r")) if w.get("k") == "bin" and w["op"] == "=" else None
+                if lin is None or lin.get(1) != 1 or {k_: v_ for k_, v_ in lin.items() if k_ != 1} != {"%s.size()" % f.params[0]["n"]: 1}:
+                    bad = w
+        rs.check(bad is None, site, "%d write(s)" % len(writes), "`size` is also written by `%s`: the packed length no longer equals the sum of (length + 1) over the strings" % (
+            expr_str(bad)[:60] if bad is not None else ""), f, bad)
+    if n_ct < 2:
+        raise AnalysisBroken("R-STRINGLIST-SIZE: only %d StringList constructors instantiated" % n_ct)
 
     rb = rep.rule("R-BYTE-ASSEMBLY", "where a wider integer is assembled from the bytes of a buffer (`x |= T(p[i]) << k`, `+`), every byte is zero-extended: it "
                                      "goes through unsigned char / uint8_t before it is widened — a plain `char` sign-extends, and any byte >= 0x80 then sets all higher bits", floor=1)
@@ -536,6 +577,11 @@ def run(ctx):
     E_.r_value_compare(prog, rep)
 
 
+def E_loops(f, what):
+    from rules import engine as E_
+    return E_.whole_container_loops(f, what)
+
+
 def prog_type(f, call):
     pts = call.get("pt", [])
     return f.db_types[pts[0]].replace("const ", "").replace("&", "").strip() if pts else ""
@@ -597,4 +643,7 @@ VARIANTS = [
     dict(name="key-length-prefix-read-with-sign-extension", file="include/llbuild/BuildSystem/BuildKey.h", old="  StringRef getCustomTaskName() const {\n    assert(isCustomTask());\n    uint32_t nameSize;\n    memcpy(&nameSize, &key.data()[1], sizeof(uint32_t));",
          new="  StringRef getCustomTaskName() const {\n    assert(isCustomTask());\n    uint32_t nameSize = 0;\n    for (unsigned i = 0; i != sizeof(uint32_t); ++i)\n      nameSize |= uint32_t(key.data()[1 + i]) << (8 * i);",
          expect=("R-BYTE-ASSEMBLY", "getCustomTaskName")),
+    dict(name="empty-list-gets-length-one", file="include/llbuild/Basic/StringList.h", old="    // Make sure to allocate at least 1 byte.\n    char* p = nullptr;\n    contents = p = new char[size + 1];",
+         new="    // Make sure to allocate at least 1 byte.\n    if (size == 0)\n      size = 1;\n    char* p = nullptr;\n    contents = p = new char[size + 1];", expect=("R-STRINGLIST-SIZE", "size")),
+    dict(name="benign-allocation-size-named", file="include/llbuild/Basic/StringList.h", old="    char* p = nullptr;\n    contents = p = new char[size + 1];", new="    const uint64_t allocated = size + 1;\n    char* p = nullptr;\n    contents = p = new char[allocated];", expect=None),
 ]
